@@ -47,6 +47,37 @@ def stale_tombstone_family():
     return out
 
 
+def late_news_family():
+    """The takeover happens while the gossip between the two nodes is held back: the new session is accepted on node 1 (which
+    has merged the old session's record, C12's proviso) and the old session on node 2 ends - or not - before node 2 hears of the
+    takeover, so that node 2's own, later-stamped removal of the old record reaches node 1 after the takeover.  Then everything
+    is delivered, in order or newest first.  The new session must keep being served and listed everywhere."""
+    out = []
+    for ender in ("close", "disconnect", "none"):
+        for mode in ("auto", "reverse"):
+            for subs in (0, 1, 2):
+                ops = [{"op": "connect", "c": 8, "n": 1, "client": "pub8", "user": "", "ka": 60000},
+                       {"op": "connect", "c": 1, "n": 2, "client": "same", "ka": 10}]
+                if subs == 2:
+                    ops.append({"op": "sub", "c": 1, "id": 4, "fs": [{"f": ["k", "#"], "q": 0}]})
+                ops += [{"op": "gossip", "mode": "hold"},
+                        {"op": "connect", "c": 2, "n": 1, "client": "same", "ka": 10}]
+                if subs >= 1:
+                    ops.append({"op": "sub", "c": 2, "id": 5, "fs": [{"f": ["k", "2"], "q": 1}]})
+                if ender == "close":
+                    ops.append({"op": "close", "c": 1})
+                elif ender == "disconnect":
+                    ops.append({"op": "send", "c": 1, "kind": "DISCONNECT"})
+                ops += [{"op": "gossip", "mode": mode}, {"op": "settle"}]
+                if ender == "none":
+                    ops.append({"op": "send", "c": 1, "kind": "PINGREQ"})
+                ops += [{"op": "send", "c": 2, "kind": "PINGREQ"},
+                        {"op": "pub", "c": 8, "t": ["k", "2"], "p": "after", "q": 1, "id": 7},
+                        {"op": "send", "c": 2, "kind": "PINGREQ"}, {"op": "quiesce"}]
+                out.append({"nodes": [1, 2], "ops": ops})
+    return out
+
+
 def check(run):
     thorough = run.tier == "thorough"
     run.model_check("MC_Session", "MC_Session_takeover.cfg")
@@ -66,6 +97,7 @@ def check(run):
         step = max(1, len(hs) // (1500 if thorough else 85))
         scns += [sessionlib.build(h, c) for h in hs[::step]]
     scns += stale_tombstone_family()
+    scns += late_news_family()
     run.log("%d takeover scripts" % len(scns))
     tpath, crashes = brokerlib.execute(run, scns, "c12", shards=14, timeout=3000)
     if crashes:
@@ -79,7 +111,8 @@ def check(run):
         "distinct_nontrivial": len(scns),
         "rule": "scenario = TLC-generated script with >= 2 connections sharing one client id (pairs on one node, pairs on two nodes, chains of three over "
                 "two nodes; depth 5-6; connect / subscribe / ping / publish / DISCONNECT / close in every order, sampled evenly), each ending with a "
-                "PINGREQ of every remaining connection and a probe of all nodes; plus 4 hand-written schedules with a tombstone in flight",
+                "PINGREQ of every remaining connection and a probe of all nodes; plus 4 hand-written schedules with a tombstone in flight and 18 in which the takeover happens while gossip is held back and the old "
+                "session ends (close / DISCONNECT / not at all) before its node hears of it, released in order or newest first",
         "events_validated": nev, "trace_spec_states": tstates, "rejections": len(rejected),
         "samples": [scns[0]["ops"][2:], scns[len(scns) // 2]["ops"][2:], scns[-1]["ops"]],
     }, ["C12's proviso: when a connection is accepted, the accepting node has merged the record of every earlier session of that client id "
